@@ -193,6 +193,16 @@ pub fn gen_unsigned(g: &mut Rng, features: &mut Vec<&'static str>) -> RawRequest
         pairs.push((n, gen_q(g)));
         features.push("repeated-query-name");
     }
+    // now and then a query of dozens of pairs in which names repeat with different values (see the header lines below)
+    if g.chance(1, 10) {
+        let n = 33 + g.usize_below(60);
+        let pool = 3 + g.usize_below(n / 2);
+        for _ in 0..n {
+            pairs.push((format!("p{}", g.usize_below(pool)), g.alnum_upto(0, 4)));
+        }
+        features.push("many-query-pairs");
+        features.push("repeated-query-name");
+    }
     g.shuffle(&mut pairs);
     if g.chance(3, 4) {
         // values of a repeated name in sorted order (the order on which all documents agree)
@@ -429,6 +439,17 @@ pub fn mutants(g: &mut Rng, b: &Base, secrets: &HashMap<String, String>) -> Vec<
     let mut r = base.clone();
     set_auth(&mut r, |a| a.replace(&b.params.access_key, "AKIDUNKNOWN000000000"));
     push("credential/unknown-key", r);
+    // an unknown key whose signature is CORRECT for a secret an attacker can guess
+    for (name, sec) in [("empty-secret", String::new()), ("own-name-as-secret", "AKIDUNKNOWN000000000".to_owned()), ("scheme-prefix-as-secret", "AWS4".to_owned()), ("a-known-keys-secret", b.params.secret.clone())] {
+        let mut r = base.clone();
+        r.headers.retain(|(k, _)| !k.eq_ignore_ascii_case("authorization"));
+        let p2 = V4Params { access_key: "AKIDUNKNOWN000000000".into(), secret: sec, ..b.params.clone() };
+        if let Some(sig) = v4_header_signature(&r, &p2, &b.signed, &b.payload) {
+            let auth = format!("AWS4-HMAC-SHA256 Credential={}/{}, SignedHeaders={}, Signature={}", p2.access_key, p2.scope(), b.signed.join(";"), sig);
+            r.headers.push(("authorization".into(), auth.into_bytes()));
+            push(&format!("credential/unknown-key-signed-with/{name}"), r);
+        }
+    }
     let mut r = base.clone();
     let d = b.params.date().to_owned();
     let d2 = unix_to_amz_date(amz_date_to_unix(&b.params.amz_date).unwrap() - 86_400 * (1 + g.range(0, 40)))[..8].to_owned();
